@@ -146,8 +146,12 @@ Definition rule_tables_ok : bool :=
   forallb closure_ok objective_vjp_closures
   && objective_hessian_vec_is_jvp_of_grad_x_at_self_p && objective_grad_x_is_grad_of_f_arg0
   && match restore_nonlinear_solve_with_state_b with RestoreSaved => true | _ => false end
-  && match restore_nonlinear_solve_b with RestoreSlot 2 => true | _ => false end
-  && fwd_nonlinear_solve_saves_solution_and_design && fwd_nonlinear_solve_with_state_saves_solution_and_params && defvjp_registrations_ok
+  (* since /repo 42a60d0: the forward rule of nonlinear_solve saves objective.p (as the primal left it) with the design slot := its argument, and the
+     reverse rule re-establishes exactly that -- no longer "design slot only on whatever objective.p holds" (RestoreSlot 2, finding C07-DESIGN-RESTORE) *)
+  && match restore_nonlinear_solve_b with RestoreSaved => true | _ => false end
+  && match fwd_saves_nonlinear_solve with RestoreSlot 2 => true | _ => false end
+  && match fwd_saves_nonlinear_solve_with_state with RestoreSaved => true | _ => false end
+  && fwd_nonlinear_solve_with_state_saves_solution_and_params && defvjp_registrations_ok
   && forallb (fun k => match find_closure objective_vjp_closures k with Some _ => true | None => false end) [0; 1; 2; 4]%nat.
 
 Theorem rule_tables_resolve : rule_tables_ok = true.
@@ -157,14 +161,14 @@ Lemma tables_facts :
   forallb closure_ok objective_vjp_closures = true
   /\ objective_hessian_vec_is_jvp_of_grad_x_at_self_p = true
   /\ restore_nonlinear_solve_with_state_b = RestoreSaved
-  /\ restore_nonlinear_solve_b = RestoreSlot 2
+  /\ restore_nonlinear_solve_b = RestoreSaved
   /\ (forall k, In k [0; 1; 2; 4]%nat -> find_closure objective_vjp_closures k <> None).
 Proof.
   pose proof rule_tables_resolve as H. unfold rule_tables_ok in H.
   repeat (match goal with H : _ && _ = true |- _ => apply andb_prop in H; destruct H end).
   split; [assumption|]. split; [assumption|].
   split; [destruct restore_nonlinear_solve_with_state_b; try discriminate; reflexivity|].
-  split; [destruct restore_nonlinear_solve_b as [|k|]; try discriminate; do 3 (destruct k as [|k]; try discriminate); reflexivity|].
+  split; [destruct restore_nonlinear_solve_b; try discriminate; reflexivity|].
   intros k Hk. match goal with H : forallb _ [0; 1; 2; 4]%nat = true |- _ => rewrite forallb_forall in H; specialize (H k Hk) end.
   destruct (find_closure objective_vjp_closures k); [discriminate|discriminate].
 Qed.
@@ -230,10 +234,50 @@ Section Instances.
     - apply (Habs k k k Hexp). unfold guard_present. rewrite Hk99, Eq. reflexivity.
   Qed.
 
-  (* nonlinear_solve_b: it re-establishes slot 2 of objective.p only; if the other slots are what they were when the forward pass ran
-     (pobj: objective.p at that time), the returned cotangent is the implicit-function cotangent of the design slot at the forward parameters *)
-  Theorem design_rule_ift (e : renv V P) (pobj : Par P) :
+  (* the single-slot rule shape [SlotVJP 2 99] under ANY way rk of re-establishing objective.p: if the parameters in force are pf and their design slot
+     holds q0, the one returned cotangent is the implicit-function cotangent of the design slot at pf *)
+  Lemma design_shape_ift (rk : restore_kind) (e : renv V P) (pf : Par P) q0 :
+    let o := out objective_vjp_closures rule_nonlinear_solve_b rk objective_hessian_vec_is_jvp_of_grad_x_at_self_p e in
+    p_used V P rk e = pf -> nth 2 pf None = Some q0 ->
+    hyps pf (e_Uu V P e) (e_v V P e) ->
+    fst o = vzero
+    /\ exists c, snd o = [CotVal P c]
+         /\ forall dp u, tangent pf (e_Uu V P e) 2 q0 dp u -> ipV (e_v V P e) u = ipP dp c.
+  Proof.
+    intros o Hpu Hq Hh. destruct tables_facts as (Hcl & Hhv & Hrs & Hrd & Hfind).
+    destruct reverse_rules_ok as (Hrule & _).
+    pose proof (rule_slot_is_ift_cotangent V P vadd vscale ipV ipP gradx vjp_at jvp_at deriv cg vzero precond ip_sym ip_lin vjp_transpose
+                  objective_vjp_closures rule_nonlinear_solve_b rk
+                  objective_hessian_vec_is_jvp_of_grad_x_at_self_p [SlotVJP 2 99] e Hrule Hhv Hcl) as Hmain.
+    rewrite Hpu in Hmain. destruct (Hmain Hh) as [H0 Hs].
+    split; [exact H0|].
+    destruct (Hs 0%nat 2%nat 99%nat eq_refl eq_refl _ Hq (Hfind 2%nat ltac:(cbn; tauto))) as (c & Hc & Hpair).
+    exists c. split; [|exact Hpair].
+    assert (Hlen : List.length (snd o) = 1%nat).
+    { unfold o, rule_out. cbn [snd]. rewrite map_length.
+      unfold revrule_ok in Hrule. repeat (match goal with H : _ && _ = true |- _ => apply andb_prop in H; destruct H end).
+      match goal with H : slots_eqb _ _ = true |- _ => apply slots_eqb_eq in H; rewrite H end. reflexivity. }
+    fold o in Hc. destruct (snd o) as [|x [|y l]]; try discriminate. cbn in Hc. inversion Hc. reflexivity.
+  Qed.
+
+  (* nonlinear_solve_b as extracted (since /repo 42a60d0 it re-establishes the Params its forward rule saved): WHATEVER objective.p holds when the rule
+     runs, the returned cotangent is the implicit-function cotangent of the design slot at the SAVED parameters (q0: the design they carry) *)
+  Theorem design_rule_ift (e : renv V P) q0 :
     let o := out objective_vjp_closures rule_nonlinear_solve_b restore_nonlinear_solve_b objective_hessian_vec_is_jvp_of_grad_x_at_self_p e in
+    nth 2 (e_psaved V P e) None = Some q0 ->
+    hyps (e_psaved V P e) (e_Uu V P e) (e_v V P e) ->
+    fst o = vzero
+    /\ exists c, snd o = [CotVal P c]
+         /\ forall dp u, tangent (e_psaved V P e) (e_Uu V P e) 2 q0 dp u -> ipV (e_v V P e) u = ipP dp c.
+  Proof.
+    intros o Hq Hh. destruct tables_facts as (_ & _ & _ & Hrd & _).
+    apply (design_shape_ift restore_nonlinear_solve_b e (e_psaved V P e) q0); [rewrite Hrd; reflexivity|exact Hq|exact Hh].
+  Qed.
+
+  (* the rule shape BEFORE /repo 42a60d0 (RestoreSlot 2: only the design slot of objective.p re-established): correct only if the other slots of objective.p
+     are what they were when the forward pass ran (pobj) *)
+  Theorem design_rule_prefix_ift (e : renv V P) (pobj : Par P) :
+    let o := out objective_vjp_closures rule_nonlinear_solve_b (RestoreSlot 2) objective_hessian_vec_is_jvp_of_grad_x_at_self_p e in
     let pfwd := upd P pobj 2 (e_dsaved V P e) in
     List.length pobj = 6%nat ->
     (forall j, (j < 6)%nat -> j <> 2%nat -> nth j (e_pcur V P e) None = nth j pobj None) ->
@@ -242,23 +286,9 @@ Section Instances.
     /\ exists c, snd o = [CotVal P c]
          /\ forall dp u, tangent pfwd (e_Uu V P e) 2 (e_dsaved V P e) dp u -> ipV (e_v V P e) u = ipP dp c.
   Proof.
-    intros o pfwd Hl Hag Hh. destruct tables_facts as (Hcl & Hhv & Hrs & Hrd & Hfind).
-    destruct reverse_rules_ok as (Hrule & _).
-    assert (Hpu : p_used V P restore_nonlinear_solve_b e = pfwd).
-    { rewrite Hrd. cbn [p_used]. apply upd_slot_agree; [lia|exact Hag]. }
-    pose proof (rule_slot_is_ift_cotangent V P vadd vscale ipV ipP gradx vjp_at jvp_at deriv cg vzero precond ip_sym ip_lin vjp_transpose
-                  objective_vjp_closures rule_nonlinear_solve_b restore_nonlinear_solve_b
-                  objective_hessian_vec_is_jvp_of_grad_x_at_self_p [SlotVJP 2 99] e Hrule Hhv Hcl) as Hmain.
-    rewrite Hpu in Hmain. destruct (Hmain Hh) as [H0 Hs].
-    split; [exact H0|].
-    assert (Hq : nth 2 pfwd None = Some (e_dsaved V P e)) by (unfold pfwd; rewrite upd_get by (try exact Hl; lia); reflexivity).
-    destruct (Hs 0%nat 2%nat 99%nat eq_refl eq_refl _ Hq (Hfind 2%nat ltac:(cbn; tauto))) as (c & Hc & Hpair).
-    exists c. split; [|exact Hpair].
-    assert (Hlen : List.length (snd o) = 1%nat).
-    { unfold o, rule_out. cbn [snd]. rewrite map_length.
-      unfold revrule_ok in Hrule. repeat (match goal with H : _ && _ = true |- _ => apply andb_prop in H; destruct H end).
-      match goal with H : slots_eqb _ _ = true |- _ => apply slots_eqb_eq in H; rewrite H end. reflexivity. }
-    fold o in Hc. destruct (snd o) as [|x [|y l]]; try discriminate. cbn in Hc. inversion Hc. reflexivity.
+    intros o pfwd Hl Hag Hh.
+    apply (design_shape_ift (RestoreSlot 2) e pfwd (e_dsaved V P e)); [|unfold pfwd; rewrite upd_get by (try exact Hl; lia); reflexivity|exact Hh].
+    cbn [p_used]. apply upd_slot_agree; [lia|exact Hag].
   Qed.
 End Instances.
 
